@@ -25,6 +25,7 @@ CATALOGUE_DOC = [
     ('next(it) without default', 'StopIteration (RuntimeError when it leaves a generator)'),
     ('mapping[constant key] on a dict built from request data (Header.options)', 'KeyError'),
     ('dict.update(x) with x from json.loads', 'TypeError / ValueError'),
+    ('<match>.group(k).<method>() / [..] where group k of the (resolved, literal) pattern is optional and nothing tests it for None', 'AttributeError / TypeError'),
     ('text[constant int] where text is a local bound only to stripped / joined / sliced / read data and no emptiness test dominates the load', 'IndexError'),
     ('raise <stored exception attribute>', 'whatever was stored'),
 ]
@@ -406,7 +407,10 @@ class Escapes:
                         yield n, ['ValueError'], self.site(f, n, self.kind(n))
                 elif d == 'next' and len(n.args) == 1:
                     yield n, ['StopIteration'], self.site(f, n, self.kind(n))
-                elif last == 'update' and n.args and isinstance(n.args[0], ast.Attribute) and n.args[0].attr == 'json':
+                elif isinstance(n.func, ast.Attribute) and isinstance(n.func.value, ast.Call) and call_attr(n.func.value) == 'group' \
+                        and self._optional_group_used(f, n.func.value, n):
+                    yield n, ['AttributeError'], self.site(f, n, f'<match>.group({ast.unparse(n.func.value.args[0])}).{n.func.attr}() on an optional group')
+                elif last == 'update' and n.args and self._unchecked_json_value(f, n, n.args[0]):
                     yield n, ['TypeError', 'ValueError'], self.site(f, n, self.kind(n))
                 # resolved callees
                 cs = self.callees(f, n)
@@ -438,6 +442,86 @@ class Escapes:
                 base = dotted(n.value) or ''
                 if base.endswith('.options'):
                     yield n, ['KeyError'], self.site(f, n, self.kind(n))
+
+    def _optional_group_used(self, f, gcall, user):
+        """gcall is `<m>.group(k)` with constant k; True when the pattern that produced <m> is a literal of the package and its group k can be None"""
+        from . import regexast as RX
+        if len(gcall.args) != 1 or not isinstance(gcall.args[0], ast.Constant) or not isinstance(gcall.args[0].value, int) or gcall.args[0].value == 0:
+            return False
+        k = gcall.args[0].value
+        ns = f.cfg.node_of_stmt(gcall)
+        if not ns:
+            return False
+        # a short-circuit / conditional guard on the same group in the same expression
+        p = getattr(user, '_p', None)
+        while p is not None and not isinstance(p, ast.stmt):
+            if isinstance(p, (ast.BoolOp, ast.IfExp)) and ast.unparse(gcall) in ast.unparse(p.values[0] if isinstance(p, ast.BoolOp) else p.test):
+                return False
+            p = getattr(p, '_p', None)
+        pats = []
+        recv_expr = gcall.func.value
+        if isinstance(recv_expr, ast.Name):
+            # a comprehension variable: what it iterates over
+            p = getattr(gcall, '_p', None)
+            while p is not None and not isinstance(p, ast.stmt):
+                if isinstance(p, (ast.ListComp, ast.SetComp, ast.DictComp, ast.GeneratorExp)):
+                    for gen in p.generators:
+                        if isinstance(gen.target, ast.Name) and gen.target.id == recv_expr.id:
+                            recv_expr = gen.iter
+                p = getattr(p, '_p', None)
+        for x in f.rd.closure_nodes(recv_expr, ns[0], follow_mut=False):
+            if isinstance(x, ast.Call) and call_attr(x) in ('finditer', 'match', 'search', 'fullmatch'):
+                recv = x.func.value
+                val = None
+                if isinstance(recv, ast.Attribute) and isinstance(recv.value, ast.Name) and recv.value.id in ('cls', 'self') and f.owner_cls is not None:
+                    for kls in self.P.mro(f.owner_cls):
+                        if recv.attr in kls.attrs:
+                            val = kls.attrs[recv.attr]
+                            break
+                elif isinstance(recv, ast.Name) and recv.id in f.module.assigns:
+                    val = f.module.assigns[recv.id][0]
+                if val is not None:
+                    pn = RX.compiled_pattern_arg(val)
+                    lits = RX.pattern_literal(pn) if pn is not None else None
+                    if lits:
+                        pats += lits
+        for pt in pats:
+            tree = RX.parse(pt.replace('\x00HOLE\x00', 'X') if isinstance(pt, str) else pt)
+            if tree is not None and k in RX.optional_groups(tree):
+                return True
+        return False
+
+    def _unchecked_json_value(self, f, call, arg):
+        """`arg` may be the decoded JSON document (any JSON type) without an isinstance(.., dict) test having selected this path"""
+        def is_json_attr(x):
+            return isinstance(x, ast.Attribute) and x.attr == 'json'
+
+        def guarded_by_isinstance(expr_src, node):
+            g = f.cfg
+            ns = g.node_of_stmt(node)
+            if not ns:
+                return False
+            for tn in g.nodes:
+                if tn.kind == 'test' and tn.ast is not None and any(
+                        isinstance(c, ast.Call) and dotted(c.func) == 'isinstance' and len(c.args) == 2 and ast.unparse(c.args[0]) == expr_src
+                        and any(isinstance(t_, ast.Name) and t_.id in ('dict', 'Mapping', 'MutableMapping') for t_ in ast.walk(c.args[1]))
+                        for c in ast.walk(tn.ast)) and g.edge_dominates(tn, 'true', ns[0]):
+                    return True
+            p = getattr(node, '_p', None)
+            while p is not None and not isinstance(p, ast.stmt):
+                if isinstance(p, ast.IfExp) and any(isinstance(c, ast.Call) and dotted(c.func) == 'isinstance' for c in ast.walk(p.test)):
+                    return True
+                p = getattr(p, '_p', None)
+            return False
+        for x in ast.walk(arg):
+            if is_json_attr(x) and not guarded_by_isinstance(ast.unparse(x), x):
+                return True
+            if isinstance(x, ast.Name) and f.rd.is_local(x.id):
+                ns = f.cfg.node_of_stmt(call)
+                defs = f.rd.at(ns[0], x.id) if ns else []
+                if defs and any(d.value is not None and is_json_attr(d.value) for d in defs) and not guarded_by_isinstance(x.id, x):
+                    return True
+        return False
 
     _TEXT_MAKERS = ('strip', 'lstrip', 'rstrip', 'join', 'read', 'decode', 'encode', 'lower', 'upper', 'replace', 'getvalue')
 
